@@ -119,6 +119,22 @@ def as_assign(flat):
     return out
 
 
+def default_decl_before_compound(flat, promoted):
+    """declarations of a promoted name, initialised with the default of their type, followed (possibly via more such
+    declarations) by a compound statement - a user statement that looks exactly like a synthetic placeholder"""
+    k = 0
+    for i, t in enumerate(flat):
+        if t[0] == 3:
+            k += default_decl_before_compound(t[2], promoted)
+        elif t[0] == 0 and t[1] in promoted and t[3] == DEFAULT.get(t[2]):
+            j = i + 1
+            while j < len(flat) and flat[j][0] == 0 and flat[j][3] == DEFAULT.get(flat[j][2]):
+                j += 1
+            if j < len(flat) and flat[j][0] == 3:
+                k += 1
+    return k
+
+
 def decl_names(flat):
     out = []
     for t in flat:
